@@ -255,6 +255,43 @@ def norm_atom(v):
         return v, pol, None
 
 
+def _count_true(v):
+    """X when v counts the true elements of the boolean vector X: count_nonzero(X), X.sum(), len / size of nonzero(X)[0]"""
+    u = unfn_m(v)
+    if u is None:
+        return None
+    nm, a = u
+    if nm in ("call:np.count_nonzero", "call:np.sum", "call:sum", "call:.sum") and len(a) == 1 and is_boolean(a[0]):
+        return a[0]
+    if nm in ("attr:size", "call:len", "call:np.size") and len(a) == 1:
+        i = app(a[0], "idx")
+        if i and const_of(i[1]) == 0 and app(i[0], "nonzero") and is_boolean(app(i[0], "nonzero")[0]):
+            return app(i[0], "nonzero")[0]
+    return None
+
+
+def truthy(v):
+    """a test value written as a count of true elements (count > 0, count != 0, count >= 1, the bare count; count == 0 negated) is any(X)"""
+    if v is None or is_unknown(v) or isinstance(v, tuple):
+        return v
+    x = _count_true(v)
+    if x is not None:
+        return F.fn("any", x)
+    u = unfn_m(v)
+    if u and u[0].startswith("cmp:") and len(u[1]) == 2:
+        op, (p, q) = u[0][4:], u[1]
+        flip = {"Gt": "Lt", "Lt": "Gt", "GtE": "LtE", "LtE": "GtE", "Eq": "Eq", "NotEq": "NotEq"}
+        if _count_true(q) is not None and op in flip:
+            p, q, op = q, p, flip[op]
+        x, k = _count_true(p), const_of(q)
+        if x is not None and k is not None:
+            if (op, k) in (("Gt", 0), ("NotEq", 0), ("GtE", 1)):
+                return F.fn("any", x)
+            if (op, k) in (("Eq", 0), ("LtE", 0), ("Lt", 1)):
+                return F.fn("not", F.fn("any", x))
+    return v
+
+
 # ------------------------------------------------------------------------------------------------------------ evaluator
 def plain_first(node):
     return bool(node.args) and not isinstance(node.args[0], ast.Starred)
@@ -378,7 +415,7 @@ class PathEval(AutoEvaluator):
     def _oracle(self, test, ev):
         if isinstance(test, ast.BoolOp) or (isinstance(test, ast.UnaryOp) and isinstance(test.op, ast.Not)):
             return None
-        v = self.ev(test)
+        v = truthy(self.ev(test))
         canon, pol, truth = norm_atom(v)
         if truth is not None:
             return truth
